@@ -54,21 +54,25 @@ struct Pattern
 };
 
 template <typename T>
+struct DistSink
+{
+    std::size_t nbins = 0, bx = 1;
+    int bin_mode = 0; // 0: everything into one bin, 1: round robin
+    bool two_d = false;
+    T xmin = T(0), xsize = T(1), ymin = T(0), ysize = T(1);
+    T factor = T(1); // the value handed to this distribution is factor * f (different magnitudes in different distributions)
+    std::vector<vf::ExactSum<T>> bins;
+    std::vector<T> bin_naive;
+};
+
+template <typename T>
 struct Sink
 {
     Pattern<T> pat;
     std::size_t idx = 0;
     vf::ExactSum<T> total;
     T naive = T(0);
-    // distribution bookkeeping
-    std::size_t nbins = 0;
-    int bin_mode = 0; // 0: everything into one bin, 1: round robin
-    std::vector<vf::ExactSum<T>> bins;
-    std::vector<T> bin_naive;
-    T xmin = T(0), xsize = T(1);
-    bool two_d = false;
-    std::size_t bx = 1;
-    T ymin = T(0), ysize = T(1);
+    std::vector<DistSink<T>> dists;
 };
 
 template <typename T>
@@ -86,21 +90,26 @@ struct Fn
             T const v = f * p.weight(); // the same single multiplication the accumulator performs
             if (std::isfinite(v)) { s->total.add(v); s->naive += v; }
         }
-        if (proj && s->nbins)
+        if (proj)
         {
-            std::size_t const b = s->bin_mode == 0 ? s->nbins / 2 : i % s->nbins;
-            // bin centre: safely inside the bin
-            if (s->two_d)
+            for (std::size_t d = 0; d != s->dists.size(); ++d)
             {
-                std::size_t const ix = b % s->bx, iy = b / s->bx;
-                proj->add(0, s->xmin + (T(ix) + T(0.5)) * s->xsize, s->ymin + (T(iy) + T(0.5)) * s->ysize, f);
+                DistSink<T>& ds = s->dists[d];
+                std::size_t const b = ds.bin_mode == 0 ? ds.nbins / 2 : i % ds.nbins;
+                T const fv = ds.factor * f;
+                // bin centre: safely inside the bin
+                if (ds.two_d)
+                {
+                    std::size_t const ix = b % ds.bx, iy = b / ds.bx;
+                    proj->add(d, ds.xmin + (T(ix) + T(0.5)) * ds.xsize, ds.ymin + (T(iy) + T(0.5)) * ds.ysize, fv);
+                }
+                else
+                {
+                    proj->add(d, ds.xmin + (T(b) + T(0.5)) * ds.xsize, fv);
+                }
+                T const v = fv * p.weight();
+                if (std::isfinite(v)) { ds.bins[b].add(v); ds.bin_naive[b] += v; }
             }
-            else
-            {
-                proj->add(0, s->xmin + (T(b) + T(0.5)) * s->xsize, f);
-            }
-            T const v = f * p.weight();
-            if (std::isfinite(v)) { s->bins[b].add(v); s->bin_naive[b] += v; }
         }
         return f;
     }
@@ -153,30 +162,37 @@ void run_t(vf::Ctx& c)
         s.pat.scale = static_cast<T>(std::pow(10.0L, static_cast<long double>(e)));
     }
     int const integrator = static_cast<int>(t.pick(3));
-    int const dist = static_cast<int>(t.pick(3)); // 0 none, 1 1-d, 2 2-d
+    // distributions: none, one (1-d or 2-d) or two (1-d with values a billion times larger, followed by a 2-d one)
+    int const dist = static_cast<int>(t.pick(4)); // 0 none, 1 1-d, 2 2-d, 3 both
     std::vector<hep::distribution_parameters<T>> params;
-    if (dist)
-    {
-        s.two_d = dist == 2;
-        s.bx = 1 + t.pick(5);
-        std::size_t const by = s.two_d ? 1 + t.pick(3) : 1;
-        s.nbins = s.bx * by;
-        s.bin_mode = static_cast<int>(t.pick(2));
-        s.bins.resize(s.nbins);
-        s.bin_naive.assign(s.nbins, T(0));
+    auto add_dist = [&](bool two_d, T factor) {
+        DistSink<T> ds;
+        ds.two_d = two_d;
+        ds.bx = 1 + t.pick(5);
+        std::size_t const by = two_d ? 1 + t.pick(3) : 1;
+        ds.nbins = ds.bx * by;
+        ds.bin_mode = static_cast<int>(t.pick(2));
+        ds.bins.resize(ds.nbins);
+        ds.bin_naive.assign(ds.nbins, T(0));
+        ds.factor = factor;
         T const xmax = t.flag() ? T(1) : T(3);
-        s.xmin = t.flag() ? T(0) : T(-2);
-        if (s.two_d) { params.emplace_back(s.bx, by, s.xmin, xmax, T(-1), T(2), "c14"); }
-        else { params.emplace_back(s.bx, s.xmin, xmax, "c14"); }
-        s.xsize = params[0].bin_size_x();
-        s.ymin = params[0].y_min();
-        s.ysize = params[0].bin_size_y();
-    }
+        ds.xmin = t.flag() ? T(0) : T(-2);
+        if (two_d) { params.emplace_back(ds.bx, by, ds.xmin, xmax, T(-1), T(2), "c14"); }
+        else { params.emplace_back(ds.bx, ds.xmin, xmax, "c14"); }
+        ds.xsize = params.back().bin_size_x();
+        ds.ymin = params.back().y_min();
+        ds.ysize = params.back().bin_size_y();
+        s.dists.push_back(ds);
+    };
+    if (dist == 1) { add_dist(false, T(1)); }
+    if (dist == 2) { add_dist(true, T(1)); }
+    if (dist == 3) { add_dist(false, static_cast<T>(1e9)); add_dist(true, T(1)); }
     std::uint32_t const seed = 1 + static_cast<std::uint32_t>(t.next() % 100000u);
     std::mt19937 eng(seed);
     c.desc << vf::type_name<T>::get() << " N=" << n << " pattern=" << s.pat.name() << (s.pat.negate ? " negated" : "") << " scale=" << vf::show(s.pat.scale)
-           << " integrator=" << (integrator == 0 ? "PLAIN" : integrator == 1 ? "VEGAS" : "MULTI") << " dist=" << dist << " bins=" << s.nbins
-           << " binmode=" << s.bin_mode << " seed=" << seed;
+           << " integrator=" << (integrator == 0 ? "PLAIN" : integrator == 1 ? "VEGAS" : "MULTI") << " dist=" << dist;
+    for (auto const& ds : s.dists) { c.desc << " [" << (ds.two_d ? "2d " : "1d ") << ds.nbins << " bins mode " << ds.bin_mode << " x" << vf::show(ds.factor) << "]"; }
+    c.desc << " seed=" << seed;
     Fn<T> fn{&s};
     hep::plain_result<T> res(std::vector<hep::distribution_result<T>>(), 0, 0, 0, T(), T());
     std::size_t const dims = 1 + t.pick(3);
@@ -215,18 +231,21 @@ void run_t(vf::Ctx& c)
     VF_CHECK(c, s.idx == n && res.calls() == n, "C14:calls", "integrand called " << s.idx << " times, calls() " << res.calls() << ", requested " << n);
     within<T>(c, res.sum(), s.total, 1.0L, n, "C14:sum", "sum of the iteration");
     bool separates = n >= 1000 && naive_outside<T>(s.naive, s.total, n);
-    if (dist)
+    VF_CHECK(c, res.distributions().size() == s.dists.size(), "C14:shape", "distribution count " << res.distributions().size());
+    for (std::size_t d = 0; d != s.dists.size(); ++d)
     {
-        VF_CHECK(c, res.distributions().size() == 1 && res.distributions()[0].results().size() == s.nbins, "C14:shape", "distribution shape");
-        long double const inv = 1.0L / static_cast<long double>(s.xsize) / static_cast<long double>(s.ysize);
-        for (std::size_t b = 0; b != s.nbins; ++b)
+        DistSink<T> const& ds = s.dists[d];
+        VF_CHECK(c, res.distributions()[d].results().size() == ds.nbins, "C14:shape", "distribution " << d << " has " << res.distributions()[d].results().size() << " bins");
+        long double const inv = 1.0L / static_cast<long double>(ds.xsize) / static_cast<long double>(ds.ysize);
+        for (std::size_t b = 0; b != ds.nbins; ++b)
         {
-            within<T>(c, res.distributions()[0].results()[b].sum(), s.bins[b], inv, n, "C14:bin-sum", "sum of bin " + std::to_string(b));
-            if (n >= 1000 && naive_outside<T>(s.bin_naive[b], s.bins[b], n)) { separates = true; c.label("bin-separates-naive"); }
+            within<T>(c, res.distributions()[d].results()[b].sum(), ds.bins[b], inv, n, "C14:bin-sum", "sum of bin " + std::to_string(b) + " of distribution " + std::to_string(d));
+            if (n >= 1000 && naive_outside<T>(ds.bin_naive[b], ds.bins[b], n)) { separates = true; c.label("bin-separates-naive"); }
             ++c.sub;
         }
-        c.label(dist == 1 ? "dist-1d" : "dist-2d");
+        c.label(ds.two_d ? "dist-2d" : "dist-1d");
     }
+    if (s.dists.size() == 2) { c.label("two-distributions"); }
     ++c.sub;
     if (separates) { c.label("separates-naive-from-compensated"); }
     if (n >= 100000) { c.label("N>=1e5"); }
